@@ -81,8 +81,17 @@ def check_closed_first(rep, fl, rule="R12.1"):
         if b is None:
             continue
         effs = [(bi, t, lab) for bi, t, lab in effect_calls(fl, b)]
-        ok = all(b.callee_of(t).startswith(fl.cache + "::") for _, t, _ in effs) and effs
-        rep.check(ok, rule, fl, b, "wrapper", "%s only forwards to a guarded operation" % w, "%s has effects of its own: %s" % (w, [l for _, _, l in effs]))
+        for x in descendants(facts, b):
+            if x is not b:
+                effs += [(bi, t, lab) for bi, t, lab in effect_calls(fl, x)]
+        # guarded: the operations checked above and the other wrappers - not the private helpers behind the guard
+        # (try_update swaps the value in the store without looking at is_closed)
+        guarded = {fl.cache + "::" + n for n in list(ops) + ["insert", "try_insert", "insert_with_ttl", "try_insert_with_ttl", "insert_if_present", "try_insert_if_present", "remove"]}
+        names = {g.split("::")[-1] for g in guarded}
+        strip = lambda c: re.sub(r"::\{closure#\d+\}$", "", c or "")
+        # an async wrapper also builds the guarded operation's future: label `<op>::{closure#0}`
+        ok = all(strip(b.callee_of(t)) in guarded or (lab.endswith("}") and strip(lab) in names) for _, t, lab in effs) and effs
+        rep.check(ok, rule, fl, b, "wrapper", "%s only forwards to a guarded operation" % w, "%s has effects of its own, not behind the is_closed test: %s" % (w, sorted({l for _, _, l in effs})))
 
 
 def check_close_sequence(rep, fl, rule="R12.2"):
@@ -726,6 +735,9 @@ def check_C10(rep, fl):
     check_cleaner(rep, fl)
     # "removed ones are gone once wait() returns": the Delete marker is ordered behind the sets and cannot be lost
     check_remove_pair(rep, fl)
+    # "admitted entries are retrievable and charged": store and policy change membership only on the processor, item
+    # by item - a client thread that empties the store behind the processor's back leaves charged keys without entry
+    check_contexts(rep, fl)
     # "everything accepted before is applied": applying an item cannot fail half-way (a `?` that fires skips the rest
     # of the item while the marker behind it is still released)
     check_no_err_between(rep, fl)
@@ -934,15 +946,21 @@ def check_clear_release(rep, fl, rule="R11.4"):
     if fl.name != "async":
         check_recheck_closed(rep, fl, rule, "clear", "clear_tx")
 
-def check_clear_parts(rep, fl, rule="R11.1"):
-    facts = fl.facts
-    # R11.2 policy.clear, store.clear
+def check_policy_clear(rep, fl, rule="R11.2"):
+    """policy.clear() clears the estimator and the charges on every path (no `nothing to do` shortcut: the
+    estimator has recorded lookups of keys that were never admitted)."""
     pb = fl.policy_fn("clear")
     ac = calls_to(pb, "policy::TinyLFU::clear")
     cc = calls_to(pb, "policy::SampledLFU::clear")
     lk = calls_to(pb, "Mutex::lock")
     ok = len(ac) == 1 and len(cc) == 1 and len(lk) == 1 and must_pass_through(pb, [ac[0][0]]) and must_pass_through(pb, [cc[0][0]]) and block_dominates(pb, lk[0][0], ac[0][0])
-    rep.check(ok, "R11.2", fl, pb, "admit + costs", "policy.clear() clears the estimator and the charges under the lock", "policy.clear() does not clear both the estimator and the charges")
+    rep.check(ok, rule, fl, pb, "admit + costs", "policy.clear() clears the estimator and the charges under the lock", "policy.clear() does not clear both the estimator and the charges")
+
+
+def check_clear_parts(rep, fl, rule="R11.1"):
+    facts = fl.facts
+    # R11.2 policy.clear, store.clear
+    check_policy_clear(rep, fl)
     sb = facts.body(SM + "::clear")
     r = None
     for bi, t in calls_to(sb, "Iterator::for_each"):
